@@ -1,7 +1,7 @@
 """C01 - see properties.jsonl; DESIGN.md section 5."""
 from ._generic import run_property
 
-EXPLANATION = 'Mixed. P (discharged for ALL sizes from the real source): skip_definition_bytes advances exactly over the no-null definition block the writer emits (every page size < 2**31), check_32 returns only values fitting i32, the dictionary-index fast path takes at least the indices encode_dict wrote. B (labelled bounded, never counted as proved): round-trip contract attached to the real fastparquet.write / ParquetFile.to_pandas over an enumerated dtype x rows x null-pattern x pairwise option space; oracle is the input frame under the documented canonicalisations only.'
+EXPLANATION = 'Mixed. P (discharged for ALL sizes from the real source): the pages of a chunk tile rows 0..len(data) without gap or overlap and the row-group slices of iter_dataframe tile the frame (write_column / iter_dataframe bookkeeping contract); skip_definition_bytes advances exactly over the no-null definition block the writer emits (every page size < 2**31), check_32 returns only values fitting i32, the dictionary-index fast path takes at least the indices encode_dict wrote. B (labelled bounded, never counted as proved): round-trip contract attached to the real fastparquet.write / ParquetFile.to_pandas over an enumerated dtype x rows x null-pattern x pairwise option space; oracle is the input frame under the documented canonicalisations only.'
 
 
 def p_arith(ctx):
@@ -19,7 +19,8 @@ def p_arith(ctx):
 
 
 def p_parts():
-    return [p_arith]
+    from ._bookkeeping import p_bookkeeping
+    return [p_arith, p_bookkeeping]
 
 
 def run(ctx):
